@@ -56,6 +56,15 @@ Qed.
 Lemma rseq_ok a b : snd a = None -> rseq a b = (fst a ++ fst b, snd b).
 Proof. intros H. unfold rseq. rewrite H. reflexivity. Qed.
 
+(* exceptions that report an exhausted budget (the library's InfiniteLoopDetected, possibly wrapped by the
+   filters it went through; EFuel is the model's own out-of-fuel value of has-loops) *)
+Fixpoint budget_exn (e : exn) : bool :=
+  match e with
+  | EInfiniteLoop | EFuel => true
+  | ETraversing c => budget_exn c
+  | _ => false
+  end.
+
 Section Runs.
 Variable P : Type.
 Variable ev : P -> jtm -> @tracecfg json -> res json * list jevent.
@@ -86,37 +95,61 @@ Proof. intros H. rewrite <- (app_nil_r ev1). econstructor; eauto. constructor. Q
 
 (* the machine, started in z, produces the specification stream r; if r ends normally the run ends in a
    state satisfying Post, otherwise it ends in an action that raises r's exception *)
-Definition realizes (z : jstate) (r : rs) (Post : jstate -> Prop) : Prop :=
+Definition ok_run (z : jstate) (r : rs) (Post : jstate -> Prop) : Prop :=
   match snd r with
   | None => exists k z' evs, run k z evs z' /\ map abs_ev evs = proj tracing (fst r) /\ Post z'
   | Some e => exists k z1 evs z2 ev2,
         run k z evs z1 /\ step1 z1 = SRaise e z2 ev2 /\ map abs_ev (evs ++ ev2) = proj tracing (fst r)
   end.
 
+(* ... or the machine produces a prefix of r and then dies of a budget exception raised inside a filter
+   (InfiniteLoopDetected of a nested search, wrapped in TraversingError): finding F1 *)
+Definition budget_run (z : jstate) (r : rs) : Prop :=
+  exists k z1 evs z2 e ev2 pre suf,
+    run k z evs z1 /\ step1 z1 = SRaise e z2 ev2 /\ budget_exn e = true /\
+    fst r = pre ++ suf /\ map abs_ev evs = proj tracing pre.
+
+Definition realizes (z : jstate) (r : rs) (Post : jstate -> Prop) : Prop :=
+  ok_run z r Post \/ budget_run z r.
+
 Lemma realizes_nil z (Post : jstate -> Prop) : Post z -> realizes z ([], None) Post.
-Proof. intros H. red; simpl. exists 0, z, []. split; [constructor|]. rewrite proj_nil. auto. Qed.
+Proof. intros H. left. red; simpl. exists 0, z, []. split; [constructor|]. rewrite proj_nil. auto. Qed.
 
 Lemma realizes_conseq z r (Post Post' : jstate -> Prop) :
   realizes z r Post -> (forall z', Post z' -> Post' z') -> realizes z r Post'.
 Proof.
-  unfold realizes. destruct (snd r); auto.
-  intros (k & z' & evs & H1 & H2 & H3) Himp. exists k, z', evs. auto.
+  intros [H | H] Himp; [left | right; exact H].
+  unfold ok_run in *. destruct (snd r); auto.
+  destruct H as (k & z' & evs & H1 & H2 & H3). exists k, z', evs. auto.
 Qed.
 
 Lemma realizes_seq z a b (Q Post : jstate -> Prop) :
   realizes z a Q -> (forall z', Q z' -> realizes z' b Post) -> realizes z (rseq a b) Post.
 Proof.
-  unfold realizes at 1. destruct a as [ea [xa|]]; simpl.
-  - intros H _. unfold rseq; simpl. exact H.
-  - intros (k & z' & evs & Hrun & Hev & HQ) Hb.
-    specialize (Hb z' HQ). rewrite rseq_ok by reflexivity. simpl.
-    unfold realizes in *. simpl. destruct (snd b) as [xb|].
-    + destruct Hb as (k2 & z1 & evs2 & z2 & ev2 & Hr2 & Hs & He).
-      exists (k + k2), z1, (evs ++ evs2), z2, ev2. split; [eapply run_trans; eauto|]. split; [exact Hs|].
-      rewrite <- app_assoc, map_app, proj_app, Hev, He. reflexivity.
-    + destruct Hb as (k2 & z2 & evs2 & Hr2 & He & HP).
-      exists (k + k2), z2, (evs ++ evs2). split; [eapply run_trans; eauto|]. split; [|exact HP].
-      rewrite map_app, proj_app, Hev, He. reflexivity.
+  intros [Ha | Ha] Hb.
+  - unfold ok_run in Ha. destruct a as [ea [xa|]]; simpl in Ha.
+    + left. unfold rseq; simpl. exact Ha.
+    + destruct Ha as (k & z' & evs & Hrun & Hev & HQ).
+      specialize (Hb z' HQ). rewrite rseq_ok by reflexivity. simpl.
+      destruct Hb as [Hb | Hb].
+      * left. unfold ok_run in *. simpl. destruct (snd b) as [xb|].
+        -- destruct Hb as (k2 & z1 & evs2 & z2 & ev2 & Hr2 & Hs & He).
+           exists (k + k2), z1, (evs ++ evs2), z2, ev2. split; [eapply run_trans; eauto|]. split; [exact Hs|].
+           rewrite <- app_assoc, map_app, proj_app, Hev, He. reflexivity.
+        -- destruct Hb as (k2 & z2 & evs2 & Hr2 & He & HP).
+           exists (k + k2), z2, (evs ++ evs2). split; [eapply run_trans; eauto|]. split; [|exact HP].
+           rewrite map_app, proj_app, Hev, He. reflexivity.
+      * right. destruct Hb as (k2 & z1 & evs2 & z2 & e & ev2 & pre & suf & Hr2 & Hs & Hbe & Hfst & He).
+        exists (k + k2), z1, (evs ++ evs2), z2, e, ev2, (ea ++ pre), suf.
+        split; [eapply run_trans; eauto|]. split; [exact Hs|]. split; [exact Hbe|]. simpl.
+        split; [rewrite Hfst, app_assoc; reflexivity|].
+        rewrite map_app, proj_app, Hev, He. reflexivity.
+  - right. destruct Ha as (k & z1 & evs & z2 & e & ev2 & pre & suf & Hr & Hs & Hbe & Hfst & He).
+    destruct a as [ea xa]. simpl in Hfst. subst ea.
+    destruct xa as [x|].
+    + exists k, z1, evs, z2, e, ev2, pre, suf. unfold rseq; simpl. auto.
+    + exists k, z1, evs, z2, e, ev2, pre, (suf ++ fst b). rewrite rseq_ok by reflexivity. simpl.
+      repeat split; auto. rewrite app_assoc. reflexivity.
 Qed.
 
 (* one ordinary action *)
@@ -125,7 +158,7 @@ Lemma realizes_step z z1 ev1 b sevs r Post :
   realizes z1 r Post -> realizes z (rseq (sevs, None) r) Post.
 Proof.
   intros Hs He Hr. eapply realizes_seq with (Q := fun z' => z' = z1).
-  - red; simpl. exists 1, z1, ev1. split; [eapply run_one; eauto|]. auto.
+  - left. red; simpl. exists 1, z1, ev1. split; [eapply run_one; eauto|]. auto.
   - intros z' ->. exact Hr.
 Qed.
 
@@ -139,7 +172,15 @@ Qed.
 Lemma realizes_raise z e z2 ev2 sevs Post :
   step1 z = SRaise e z2 ev2 -> map abs_ev ev2 = proj tracing sevs -> realizes z (sevs, Some e) Post.
 Proof.
-  intros Hs He. red; simpl. exists 0, z, [], z2, ev2. split; [constructor|]. split; [exact Hs|]. exact He.
+  intros Hs He. left. red; simpl. exists 0, z, [], z2, ev2. split; [constructor|]. split; [exact Hs|]. exact He.
+Qed.
+
+(* an action that dies of a budget exception *)
+Lemma realizes_budget z e z2 ev2 r Post :
+  step1 z = SRaise e z2 ev2 -> budget_exn e = true -> realizes z r Post.
+Proof.
+  intros Hs Hb. right. exists 0, z, [], z2, e, ev2, [], (fst r).
+  split; [constructor|]. split; [exact Hs|]. split; [exact Hb|]. split; [reflexivity|]. rewrite proj_nil. reflexivity.
 Qed.
 
 Lemma trace_ev_abs m r i :
